@@ -163,6 +163,30 @@ impl Prop for C15 {
         for len in [0usize, 2, 16, 510] {
             cs.push(Case { av: vec![(rn::AV_NB_DOMAIN, len), (rn::AV_TIMESTAMP, 8), (rn::AV_DNS_COMPUTER, len)], block: "av-lengths", ..base.clone() });
         }
+        // very large (but answerable) target information: the AUTHENTICATE payload then exceeds 64 KiB and its later
+        // fields start beyond offset 65535 (the NT response echoes the block: 44 + len must fit 16 bits)
+        for ti_len in [30000usize, 60000, 65000, 65400, 65467, 65468, 65480, 65491] {
+            // one AV pair carries the bulk: 4 (its header) + 12 (timestamp) + 4 (EOL) + value = ti_len
+            let bulk = ti_len - 20;
+            for (domain, user) in [("DOM", "user"), ("d".repeat(1200).as_str(), "u".repeat(1800).as_str())] {
+                if 44 + ti_len + 4 > 65535 {
+                    continue;
+                }
+                cs.push(Case { av: vec![(rn::AV_DNS_TREE, bulk), (rn::AV_TIMESTAMP, 8)], domain: domain.to_string(), user: user.to_string(), block: "huge-target-info", ..base.clone() });
+            }
+        }
+        // OEM sessions with names that are not upper case already (ASCII only)
+        for (domain, user) in [("Dom", "User"), ("dom", "user"), ("DOM", "USER"), ("", "user"), ("contoso.local", "Alice")] {
+            for version in [true, false] {
+                for via_hash in [false, true] {
+                    let mut flags = rn::F_REQUEST_TARGET | rn::F_SIGN | rn::F_SEAL | rn::F_NTLM | rn::F_ESS | rn::F_TARGET_INFO | rn::F_128 | rn::F_KEY_EXCH | rn::F_OEM;
+                    if version {
+                        flags |= rn::F_VERSION;
+                    }
+                    cs.push(Case { flags, via_hash, domain: domain.to_string(), user: user.to_string(), block: "oem-names", ..base.clone() });
+                }
+            }
+        }
         // flags: with/without VERSION, UNICODE (OEM only with ASCII names), neutral bits
         for version in [true, false] {
             for unicode in [true, false] {
@@ -206,7 +230,7 @@ impl Prop for C15 {
         json!({"idx": idx, "case": self.cases[idx as usize]})
     }
     fn rule(&self) -> String {
-        "cases = (domain, user, password | NT hash, server challenge, client nonce pattern, target-info block, negotiate flags). Strings: class^len for class in {a, é, 日, 😀} x len in {0,1,7,8,15,16,17,31,32,64}, every mixed string of <=3 code points over the four classes, the boundary code points of every UTF-8/UTF-16 encoding length (U+1, 7F, 80, 7FF, 800, D7FF, E000, FFFD, FFFF, 10000, 10001, FFFFF, 100000, 10FFFF) alone and between letters, a few practical names; varied one at a time and jointly (full user x domain and password x domain products in thorough); 4 challenges x 3 nonce patterns; every subset of the 9 optional AV ids with the timestamp at first/middle/last (every) position; every permutation of <=4 pairs including the timestamp; value lengths {0,2,16,510}; flags with/without VERSION and UNICODE and neutral bits; and a second handshake on the same Ntlm object for every ordered pair of (VERSION, UNICODE) flag sets. Each AUTHENTICATE is verified by the reference MS-NLMP server: field descriptors, NTProofStr, LMv2, key-exchange unwrap, MIC, names; and hash-based == password-based. Non-trivial: every case except the base one.".into()
+        "cases = (domain, user, password | NT hash, server challenge, client nonce pattern, target-info block, negotiate flags). Strings: class^len for class in {a, é, 日, 😀} x len in {0,1,7,8,15,16,17,31,32,64}, every mixed string of <=3 code points over the four classes, the boundary code points of every UTF-8/UTF-16 encoding length (U+1, 7F, 80, 7FF, 800, D7FF, E000, FFFD, FFFF, 10000, 10001, FFFFF, 100000, 10FFFF) alone and between letters, a few practical names; varied one at a time and jointly (full user x domain and password x domain products in thorough); 4 challenges x 3 nonce patterns; every subset of the 9 optional AV ids with the timestamp at first/middle/last (every) position; every permutation of <=4 pairs including the timestamp; value lengths {0,2,16,510}; target information of 30000..65491 bytes (the largest the 16-bit NT response length can echo) with short and kilobyte-long names; OEM sessions with lower / mixed / upper case ASCII names; flags with/without VERSION and UNICODE and neutral bits; and a second handshake on the same Ntlm object for every ordered pair of (VERSION, UNICODE) flag sets. Each AUTHENTICATE is verified by the reference MS-NLMP server: field descriptors, NTProofStr, LMv2, key-exchange unwrap, MIC, names; and hash-based == password-based. Non-trivial: every case except the base one.".into()
     }
     fn assumptions(&self) -> Vec<String> {
         vec![
